@@ -405,6 +405,26 @@ def check(ctx):
                evidence=not (indirect_calls(rs) if not w_ok else
                              indirect_calls(rl)))
 
+    # ... and the suffix is a suffix: the loader selects the members by
+    # `name.endswith(ext)`, so the extension has to be the last piece of the
+    # member's name
+    for e in ws:
+        nm = Interp.unname(e.data["args"][0])
+        if nm.op != "fstr" or len(nm.args) < 2:
+            continue
+        exts = {".tum", ".kitti", ".npy"}
+        where = [i for i, x in enumerate(nm.args) if isinstance(x, T) and any(
+            tm.is_const(y) and tm.const_val(y) in exts for y in x.walk())]
+        if not where:
+            continue
+        ok = where == [len(nm.args) - 1]
+        ctx.ob("C06.3", e, ok,
+               "result: the format suffix is the end of the member's name "
+               "(the loader selects by endswith)" if ok else
+               f"result: member name {fmt(nm)[:90]} does not end with its "
+               f"format suffix — the loader selects members by "
+               f"name.endswith(suffix) and will not find it",
+               key="C06.3:save:suffix-last")
     # a member's payload is the *whole* buffer: rewound to 0 after it was
     # filled and before it is read
     for e in ws:
